@@ -46,7 +46,30 @@ def fix_accepts(d):
 
 # ------------------------------------------------------------------ case generation
 
-CHAIN_OPS = ["copy", "deepcopy", "pickle", "shallow_clone", "from_other_class", "cast_to", "from_dict"]
+CHAIN_OPS = ["copy", "deepcopy", "pickle", "shallowClone", "fromOtherClass", "castTo", "fromMapping"]
+
+
+def gen_chain(rng, vg, cls, n):
+    ops = []
+    names = [nm for nm, _ in cls["fields"]]
+    for _ in range(n):
+        op = rng.choice(CHAIN_OPS)
+        d = {"op": op}
+        if op in ("shallowClone", "fromOtherClass", "fromMapping") and rng.random() < 0.5:
+            nm, fd = rng.choice(cls["fields"])
+            r = rng.random()
+            if r < 0.6:
+                v = vg.valid(fd)
+            elif r < 0.8:
+                v = rng.choice(vg.confusion())
+            else:
+                v = None
+            if v is not gen.NOVALUE:
+                d["kw"] = [[nm, v]]
+        if op in ("fromOtherClass", "fromMapping") and rng.random() < 0.3:
+            d["ignore"] = rng.sample(names, rng.randint(1, len(names)))
+        ops.append(d)
+    return ops
 
 
 def gen_cases(rng, tier, n_classes):
@@ -89,39 +112,59 @@ def gen_cases(rng, tier, n_classes):
             kws.append(("extra", base + [["zz_extra", rng.choice([1, None, "s"])]]))
         for tag, kw in kws:
             case = {"suite": "construct", "cls": cls, "kw": kw, "stream": tag,
-                    "re": gen.re_table(cls, kw)}
+                    "re": None}
             if tag == "valid" or rng.random() < 0.15:
-                case["chain"] = [rng.choice(CHAIN_OPS) for _ in range(rng.randint(1, 3 if tier == "quick" else 6))]
+                case["chain"] = gen_chain(rng, vg, cls, rng.randint(1, 3 if tier == "quick" else 6))
+            case["re"] = gen.re_table(cls, kw, case.get("chain", []))
             cases.append(case)
     return cases
 
 
 # ------------------------------------------------------------------ real code
 
-def apply_chain(x, chain, ctx):
-    applied = []
+def preload_chain(chain, ctx):
+    """build the override values of every op up front; an op whose override cannot be built
+    (generated nested instance invalid) loses its override"""
+    out = []
     for op in chain:
+        name = "fromOtherClass" if op["op"] == "fromMapping" else op["op"]
+        try:
+            kw = {k: dump.load_value(v, ctx) for k, v in op.get("kw", [])}
+        except Exception:
+            kw = {}
+        rec = {"op": name, "kw": [[k, rename_inline(dump.dump_value(v, ctx), ctx)] for k, v in kw.items()],
+               "ignore": op.get("ignore", [])}
+        out.append((op["op"], kw, rec))
+    return out
+
+
+def apply_chain(x, loaded, applied):
+    """apply entry points; `applied` (ops as the model must run them) is filled in place"""
+    for name, kw, rec in loaded:
         cls = type(x)
-        if op == "copy":
-            x = copy.copy(x)
-        elif op == "deepcopy":
-            x = copy.deepcopy(x)
-        elif op == "pickle":
+        if name == "pickle":
             try:
-                x = pickle.loads(pickle.dumps(x))
-            except Exception:   # unpicklable field types (StructureReference, local classes): skip op
-                applied.append("pickle-skipped")
+                data = pickle.dumps(x)
+            except Exception:   # unpicklable field types (StructureReference, implicit wrappers): skip
                 continue
-        elif op == "shallow_clone":
-            x = x.shallow_clone_with_overrides()
-        elif op == "from_other_class":
-            x = cls.from_other_class(x)
-        elif op == "cast_to":
+            applied.append(rec)
+            x = pickle.loads(data)
+            continue
+        applied.append(rec)
+        if name == "copy":
+            x = copy.copy(x)
+        elif name == "deepcopy":
+            x = copy.deepcopy(x)
+        elif name == "shallowClone":
+            x = x.shallow_clone_with_overrides(**kw)
+        elif name == "fromOtherClass":
+            x = cls.from_other_class(x, ignore_props=rec["ignore"] or None, **kw)
+        elif name == "fromMapping":
+            src = {k: v for k, v in x.__dict__.items() if k not in dump.INTERNAL}
+            x = cls.from_other_class(src, ignore_props=rec["ignore"] or None, **kw)
+        elif name == "castTo":
             x = x.cast_to(cls)
-        elif op == "from_dict":
-            x = cls.from_other_class({k: v for k, v in x.__dict__.items() if k not in dump.INTERNAL})
-        applied.append(op)
-    return x, applied
+    return x
 
 
 def run_impl(case):
@@ -153,11 +196,13 @@ def run_impl(case):
     res["args_unchanged"] = snap_before == json.dumps([[k, dump.dump_value(v, ctx)] for k, v in kw.items()],
                                                       sort_keys=True)
     if x is not None and case.get("chain"):
+        applied = []
+        loaded = preload_chain(case["chain"], ctx)
         try:
-            y, applied = apply_chain(x, case["chain"], ctx)
+            y = apply_chain(x, loaded, applied)
             res["chain"] = {"ok": rename_inline(dump.dump_value(y, ctx), ctx), "applied": applied}
         except Exception as e:
-            res["chain"] = {"err": err_name(e), "msg": str(e)[:300]}
+            res["chain"] = {"err": err_name(e), "msg": str(e)[:300], "applied": applied}
     return res
 
 
@@ -184,6 +229,8 @@ def line(case, impl):
         final = impl.get("ok")
     if final is not None:
         l["impl"] = final
+    if "chain" in impl:
+        l["chain"] = impl["chain"]["applied"]
     return l
 
 
@@ -221,6 +268,8 @@ def correspondence(case, impl, model):
         return None
     if "abstraction_mismatch" in impl:
         return "dump(build(decl)) != decl: " + json.dumps(impl["abstraction_mismatch"])[:800]
+    if not model.get("wfDecl", True):
+        return "dumped class declaration is not well-formed (wfDecl false)"
     mres = model["res"]
     if "ok" in mres:
         if "ok" not in impl:
@@ -233,4 +282,23 @@ def correspondence(case, impl, model):
         return f"model rejects ({mres['err']}), real code accepts: " + json.dumps(impl["ok"])[:300]
     if impl["err"] != mres["err"]:
         return f"exception class differs: model {mres['err']}, real code {impl['err']}: {impl.get('msg')}"
+    return None
+
+
+def chain_correspondence(case, impl, model):
+    """model `runChain` vs the real entry points"""
+    if "chain" not in impl or "chainRes" not in model:
+        return None
+    ic, mc = impl["chain"], model["chainRes"]
+    if "ok" in mc:
+        if "ok" not in ic:
+            return f"chain {ic.get('applied')}: model succeeds, real code raises {ic.get('err')}: {ic.get('msg')}"
+        if dump.canon(mc["ok"]) != dump.canon(ic["ok"]):
+            return (f"chain {ic.get('applied')}: different instances: model=" + json.dumps(dump.canon(mc["ok"]))[:400]
+                    + " impl=" + json.dumps(dump.canon(ic["ok"]))[:400])
+        return None
+    if "ok" in ic:
+        return f"chain {ic.get('applied')}: model raises {mc['err']}, real code succeeds"
+    if ic["err"] != mc["err"]:
+        return f"chain {ic.get('applied')}: exception class differs: model {mc['err']}, real code {ic['err']}: {ic.get('msg')}"
     return None
